@@ -231,6 +231,9 @@ func scribble(b []byte) {
 // plainReader hides every optional interface of a reader (WriterTo, Seeker, …).
 type plainReader struct{ io.Reader }
 
+// plainWriter hides every optional interface of a writer (ReaderFrom, …).
+type plainWriter struct{ io.Writer }
+
 // fileOp2 is FileOp with the unified error classes.
 func fileOp2(h afero.File, t []string) string {
 	switch t[0] {
@@ -253,6 +256,10 @@ func fileOp2(h afero.File, t []string) string {
 	case "readfrom": // io.Copy into the handle from a plain reader: io.ReaderFrom if the handle has it, Write otherwise
 		n, err := io.Copy(h, plainReader{bytes.NewReader(corr.UnHex(t[2]))})
 		return fmt.Sprintf("n=%d err:%s", n, ErrClass(err))
+	case "copyout": // io.Copy out of the handle into a plain writer: io.WriterTo if the handle has it, Read until io.EOF otherwise
+		var buf bytes.Buffer
+		_, err := io.Copy(plainWriter{&buf}, h)
+		return fmt.Sprintf("bytes=%s err:%s", corr.Hex(buf.Bytes()), ErrClass(err))
 	case "writeat":
 		b := corr.UnHex(t[2])
 		n, err := h.WriteAt(b, atoi64(t[3]))
